@@ -65,3 +65,27 @@ Lemma inv_rows_cover s : Inv s -> rows_cover (s_dir s) (s_stats s).
 Proof.
   intros (_ & _ & _ & _ & _ & _ & (_ & _ & C3)) g Hg E. apply (C3 g eq_refl) in E. unfold slog in *. congruence.
 Qed.
+
+(* ---------- what "rows cover files" buys: every selection is closed downwards over the files that hold records ----------
+   No invariant of the engine is assumed: this holds in the states the fault paths leave behind (a failed unlink, a
+   failed fsync with the repaired bookkeeping), which are outside [Inv].  It is the reason a tombstone is never merged
+   away while an older file still holds the value it shadows. *)
+Lemma select_shape c s sel0 : select c s = ROk sel0 ->
+  exists bound, forall g, mem g sel0 = mem g (stat_ids (s_stats s)) && match bound with Some b => g <=? b | None => false end.
+Proof.
+  unfold select. intros H.
+  destruct (fold_left _ (stat_ids (s_stats s)) (ROk [])) as [sel| |]; try discriminate.
+  destruct (nmax sel) as [newest|].
+  - injection H as <-. exists (Some newest). intros g. exact (mem_filter (fun id => id <=? newest) _ g).
+  - injection H as <-. exists None. intros g. cbn. rewrite andb_false_r. reflexivity.
+Qed.
+
+Theorem rows_make_selection_closed c s sel0 : rows_cover (s_dir s) (s_stats s) -> select c s = ROk sel0 ->
+  forall id g, mem id sel0 = true -> has_file (log_of_dir (s_dir s)) g = true -> g <= id -> mem g sel0 = true.
+Proof.
+  intros HR Hsel id g Hid Hg Hle. destruct (select_shape c s sel0 Hsel) as (bound & Hb).
+  rewrite Hb in Hid. apply andb_true_iff in Hid as [_ Hid]. destruct bound as [b|]; [|discriminate].
+  rewrite Hb. apply andb_true_iff. split.
+  - apply stat_ids_iff. apply HR. exact Hg.
+  - apply N.leb_le. apply N.leb_le in Hid. lia.
+Qed.
